@@ -81,6 +81,10 @@ func (c05) Gen(rng *rand.Rand, tier string, idx int) Case {
 		} else {
 			row = c05MutateValue(rng, tmpl, 3).(map[string]interface{})
 		}
+		if w == nil && rng.Intn(8) == 0 {
+			row = map[string]interface{}{} // a row without any field (SELECT * then yields a result with no column)
+			c.Stat = append(c.Stat, "row-empty")
+		}
 		c.Stat = append(c.Stat, c05ApplyWhereColumn(rng, w, row))
 		c.Ops = append(c.Ops, append([]string{"row"}, c05EncRow(row)...))
 	}
